@@ -22,7 +22,7 @@ func init() {
 			"C03.3 authenticateRequest returns hasAuth=true on exactly one return, dominated by: MESSAGE-INTEGRITY present, AuthHandler!=nil, NONCE decoded, req.NonceHash.Validate(that nonce)==nil, realm and username decoded, AuthHandler(username, realm of the message) ok, MessageIntegrity(key of that handler call).Check(stunMsg)==nil; the returned key and user are that call's results; every other return has hasAuth=false; " +
 			"C03.4 in the five non-Allocate handlers every state effect is dominated by a non-nil result of GetAllocationForUserID(request tuple, user) / GetTCPConnection(user, id) with user = result #2 of authenticateRequest, and those lookups return non-nil only on the userID equality edge; " +
 			"C03.5 challenge and validation use the same req.NonceHash, which is only assigned from Server.nonceHash; the challenge realm is req.Realm; " +
-			"C03.6 every NonceManager.Validate returns nil only on the true edge of hmac.Equal over a MAC keyed by the instance key and bytes of the presented nonce, and under an expiry comparison involving time.Now and the nonce; C03.6d the bytes fed to that HMAC are the byte range the timestamp is decoded from (or the low-order bytes of its encoding), in Generate, Validate and their helpers; C03.6e the MAC a validator computes is written into storage of its own (hash.Sum(nil) or a fresh buffer), never appended onto a slice of the presented nonce — Sum(b) appends, and in place when b has room, which would make the comparison compare the nonce with itself. C03.8 a nonce is refused only for what is in the nonce, the key and the clock (closed refusal set); C03.9 (=C17.7) the AuthHandler consulted is the operator's own.",
+			"C03.6 every NonceManager.Validate returns nil only on the true edge of hmac.Equal over a MAC keyed by the instance key and bytes of the presented nonce, and under an expiry comparison involving time.Now and the nonce; C03.6d the bytes fed to that HMAC are the byte range the timestamp is decoded from (or the low-order bytes of its encoding), in Generate, Validate and their helpers; C03.6e the MAC a validator computes is written into storage of its own (hash.Sum(nil) or a fresh buffer), never appended onto a slice of the presented nonce — Sum(b) appends, and in place when b has room, which would make the comparison compare the nonce with itself. C03.8 a nonce is refused only for what is in the nonce, the key and the clock (closed refusal set); C03.9 (=C17.7) the AuthHandler consulted is the operator's own. C03.10 a success response of an owner-gated method is built only under owner lookup != nil; C03.11 (=C16.13) a pending peer connection is touched (bind timer stopped) only after the user matched, and its single use is never handed back.",
 		NotCovered: "strength of HMAC/MD5; the numeric value of the one-hour threshold beyond the comparison being present; what the operator's AuthHandler returns; interleavings.",
 		Run:        runC03,
 	})
@@ -135,6 +135,8 @@ func runC03(c *Ctx) {
 	ruleAuthHandlerIsOperators(c, "C03.9")
 	// a request by another user must leave the owner's pending connection untouched
 	ruleSingleUseOwner(c, "C03.7")
+	ruleSuccessNeedsOwner(c, "C03.10", handlers)
+	rulePendingConnOwnerOnly(c, "C03.11")
 }
 
 // authFact: the call of authenticateRequest whose #1 result is known true at `at`.
